@@ -13,7 +13,10 @@ LDLIBS   := -levent -lm -ldl
 CORE_SRC := accumulators bitset common config log module set git-version
 CORE_OBJ := $(addprefix $(B)/obj/,$(addsuffix .o,$(CORE_SRC)))
 MODS     := iauth iauth_xquery iauth_class
-STUBS    := m0 m1 m2 m3 m4 m5
+STUBN    := m0 m1 m2 m3 m4 m5
+# each stub in four variants: all hooks / no post-init / no destructor / neither (separate files: dlopen
+# identifies a library by its inode)
+STUBS    := $(STUBN) $(addsuffix _np,$(STUBN)) $(addsuffix _nd,$(STUBN)) $(addsuffix _npd,$(STUBN))
 HDRS     := $(wildcard $(REPO)/src/*.h) $(wildcard $(REPO)/modules/*.h) $(wildcard $(REPO)/autoconf.h) $(B)/.flags
 
 # objects are rebuilt when the compile line or the repository location changes
@@ -47,6 +50,24 @@ $(B)/mods/iauth_%.so: $(REPO)/modules/iauth_%.c $(HDRS) | $(B)/mods
 
 $(B)/stubs/stub.so: /verif/sim/stub_module.c $(HDRS) | $(B)/stubs
 	$(CC) $(CFLAGS) -fPIC -shared $< -o $@
+
+$(B)/stubs/stub_np.so: /verif/sim/stub_module.c $(HDRS) | $(B)/stubs
+	$(CC) $(CFLAGS) -DSTUB_NO_POSTINIT -fPIC -shared $< -o $@
+
+$(B)/stubs/stub_nd.so: /verif/sim/stub_module.c $(HDRS) | $(B)/stubs
+	$(CC) $(CFLAGS) -DSTUB_NO_DTOR -fPIC -shared $< -o $@
+
+$(B)/stubs/stub_npd.so: /verif/sim/stub_module.c $(HDRS) | $(B)/stubs
+	$(CC) $(CFLAGS) -DSTUB_NO_POSTINIT -DSTUB_NO_DTOR -fPIC -shared $< -o $@
+
+$(B)/stubs/m%_np.so: $(B)/stubs/stub_np.so
+	cp $< $@
+
+$(B)/stubs/m%_nd.so: $(B)/stubs/stub_nd.so
+	cp $< $@
+
+$(B)/stubs/m%_npd.so: $(B)/stubs/stub_npd.so
+	cp $< $@
 
 $(B)/stubs/m%.so: $(B)/stubs/stub.so
 	cp $< $@
